@@ -51,6 +51,25 @@ ADDED = {
  "C15_2": "scenario `c15_pipelined` (REP vs a raw REQ that pipelines and reads no replies)",
  "C18_2": "scenario `c18_parked` (FIFO across parked asynchronous senders)",
  "C20_2": "burst phase in `c20_sp` (duplicates after a failed allocation)",
+ "C02_8": "scenario `c02_submitrace` (cancel / abort / stop and 1 ms time-outs landing while the submitting call is still running)",
+ "C02_9": "`c02_reuse`: surveyor receives, and time-outs set once and left alone between the uses of the aio (C07 caught it as it stood)",
+ "C03_8": "`c06_churn` (which caught it under C06) added to the C03 plan",
+ "C03_9": "`c03_api`: a ws:header option given several times with values of different lengths",
+ "C04_8": "scenario `c04_repqueue` (a REP context's reply queued behind a busy connection while the context answers a newer request of another peer)",
+ "C04_9": "scenario `c04_repqueue` (the queued send timed out or cancelled before the newer reply)",
+ "C05_9": "scenario `c05_edit` (several contexts receive the same publication and every receiver edits its own message in place)",
+ "C06_9": "scenario `c01_bursts` (bursts with empty messages against a receiver that is behind; twin-burst reference for the merged clause), also under C06 and C08",
+ "C07_8": "scenario `c07_sendrace` (several tasks send surveys on one context at the same instant; a raw respondent answers every id it saw)",
+ "C07_9": "scenario `c07_xpipe` (a respondent context answers a newer survey of another surveyor while its earlier response is parked behind a busy connection)",
+ "C10_9": "`c10_close`: the application looks at its pipes' options (every getter, names the pipe has and has not) before closing",
+ "C12_8": "scenario `c12_slowrep` (two repliers, connections stay up: a slow one answers after the timed retransmission went to a silent one)",
+ "C12_9": "scenario `c12_optchange` (RESENDTICK / RESENDTIME changed while a request is outstanding and the retry timer is armed)",
+ "C13_9": "scenarios `c13_fansurv`, `c13_fanbus` (fan-out over inproc to several raw receivers, devices behind them)",
+ "C15_8": "scenario `c15_cbdrain` (a context's completion callback, or a second task, takes the socket's message between the unlock and the descriptor update)",
+ "C18_9": "scenario `c18_preconnect` (messages accepted while no peer is connected, then the peer connects and sending goes on), also under C08",
+ "C01_9": "`c18_fifo_seq` (which caught it under C18) added to the C01 plan",
+ "C20_8": "`c20_accept2` programs (two connections arrive at a listener together; the allocation failure hits one while the other is negotiating)",
+ "C20_9": "`c20_keepalive` programs (requests with bodies on a keep-alive connection, the body the text of another request)",
 }
 rows = []
 for d in sorted(glob.glob(os.path.join(V, "seeded", "*", "meta.json"))):
